@@ -226,6 +226,15 @@ def work_exitprop(items):
                             for f, d in o['filters'].items()}}
         for formula, text, sig in H.judge_exitprop(topo, who, kind, pol, o, strict=uniform):
             _agg_viol(agg, formula, text, sig, wit)
+        if uniform and seed is None:
+            # the same case with `who` ending in setup(), before it ever requested a frame from (or published to) anyone
+            o2 = H.run_exitprop(topo, who, kind, pol, at='setup')
+            agg['runs'] += 1
+            agg['steps'] += o2.get('steps', 0)
+            wit2 = dict(wit, at='setup', observed={f: {k: v for k, v in d.items() if k in ('result', 'exc', 'calls', 'announced', 'open_socks')}
+                                                    for f, d in o2['filters'].items()})
+            for formula, text, sig in H.judge_exitprop(topo, who, kind, pol, o2, strict=True, at='setup'):
+                _agg_viol(agg, formula, text + ' [ending in setup()]', dict(sig, at='setup'), wit2)
         got = {}
         for f in H.NAMES:
             F = o['filters'][f]
@@ -579,13 +588,13 @@ def replay(ctx):
     elif mode == 'exitprop':
         pol = {f: tuple(p) for f, p in wit['policies'].items()}
         import random
-        o = H.run_exitprop(wit['topo'], wit['who'], wit['kind'], pol,
+        o = H.run_exitprop(wit['topo'], wit['who'], wit['kind'], pol, at=wit.get('at', 'proc'),
                            rng=None if wit.get('seed') is None else random.Random(wit['seed']))
         print(f'replay of {ctx.replay}: {wit["topo"]}, {wit["who"]} ends ({wit["kind"]}), prop/obey {pol}')
         for f in H.NAMES:
             F = o['filters'][f]
             print(f'  {f}: {F["result"]} {F["exc"] or ""} calls {F["calls"]} announced {F["announced"]}')
-        v = H.judge_exitprop(wit['topo'], wit['who'], wit['kind'], pol, o, strict=wit.get('strict', True))
+        v = H.judge_exitprop(wit['topo'], wit['who'], wit['kind'], pol, o, strict=wit.get('strict', True), at=wit.get('at', 'proc'))
     elif mode == 'exit_after':
         o = H.run_exit_after(wit['form'], wit['T'], wit['role'], wit['period_ms'])
         print(f'replay of {ctx.replay}: exit_after={o["value"]!r} {wit["role"]} period {wit["period_ms"]} ms')
